@@ -327,8 +327,9 @@ def build_graph(cfg: Config, forest: Forest, rng: random.Random, with_ids: bool,
         segs = sorted(oracles.segment_partition(forest.times, forest.edges), key=min)
         comps = sorted(oracles.component_partition(forest.times, forest.edges), key=min)
         # arbitrary, non-contiguous but valid ids
-        tids = rng.sample(range(1, 3 * len(segs) + 5), len(segs))
-        lids = rng.sample(range(1, 3 * len(comps) + 5), len(comps))
+        top = rng.choice([3 * len(segs) + 5, 3 * len(segs) + 5, 1200])  # also ids > 255
+        tids = rng.sample(range(1, top), len(segs))
+        lids = rng.sample(range(1, max(top, 3 * len(comps) + 5)), len(comps))
         tid = {n: tids[i] for i, c in enumerate(segs) for n in c}
         lid = {n: lids[i] for i, c in enumerate(comps) for n in c}
     npi = (lambda x: np.int64(x)) if cfg.npint else (lambda x: x)
@@ -379,6 +380,14 @@ def build_tracks(cfg: Config):
         if build == "from_tracks":
             # a plain Tracks object (candidate-graph style, no ids) converted to a solution
             from funtracks.data_model import Tracks
+
+            if cfg.seed % 4 == 0 and g.number_of_nodes() >= 2:
+                # an older solution that was extended by hand: only the first nodes carry
+                # (valid) ids, the rest none - everything has to be recomputed
+                first = list(g.nodes)[: max(1, g.number_of_nodes() // 2)]
+                for i_, n_ in enumerate(first):
+                    g.nodes[n_]["track_id"] = 500 + i_
+                    g.nodes[n_]["lineage_id"] = 700 + i_
 
             plain = Tracks(g, segmentation=seg, pos_attr=pos_attr, scale=scale, ndim=cfg.ndim)
             tracks = SolutionTracks.from_tracks(plain)
